@@ -449,11 +449,14 @@ CONFIGS = [
     dict(algo="sac", env="goal", n_envs=1, total=40, her=True, her_strategy="future", learning_starts=16),
     dict(algo="td3", env="goal", n_envs=2, total=48, her=True, her_strategy="episode", noise="normal", learning_starts=16),
     dict(algo="dqn", env="discrete", n_envs=3, total=45),
+    dict(algo="sac", env="goal", n_envs=1, total=40, her=True, her_strategy="final", vecnormalize=True, use_sde=True, sde_sample_freq=2, learning_starts=16),
+    dict(algo="ppo", env="continuous", n_envs=2, total=32, vecnormalize=True, use_sde=True, sde_sample_freq=4),
+    dict(algo="a2c", env="dictd", n_envs=3, total=30),
 ]
 
 
 def main():
-    chk = Check("C10", level="other")
+    chk = Check("C10", level="other", groups=["seed"])
     chk.build_props()
     # ---- (1) scan
     sites, failures, allowed = scan_repo()
